@@ -15,7 +15,7 @@ UVALS = [[250, 251, 251, 251], [0, 0, 1, 1], [1, 2, 3, 4], [7, 7, 7, 8], [9, 200
 HEAD = '~Version Information Section\nVERS. 2.0 : CWLS\nWRAP. NO : One line per depth step\n~Well Information Section\nNULL. -999.25 : NULL\n'
 
 
-def _frame_array(nframes, v0, v1):
+def _frame_array(nframes, v0, v1, only=None):
     import numpy as np
     fa = LogPass.FrameArray('FA', 'description')
     fa.append(LogPass.FrameChannel('DEPT', 'Depth', '.1IN', (1,), np.float64))
@@ -23,15 +23,23 @@ def _frame_array(nframes, v0, v1):
     fa.append(LogPass.FrameChannel('CNT', 'Count', '', (1,), np.int32))
     fa.append(LogPass.FrameChannel('WAVE', 'Waveform', 'OHM.M', (1, 2), np.float64))      # two values per frame, leading dimension 1
     fa.append(LogPass.FrameChannel('SPEC', 'Spectrum counts', 'cps', (4,), np.int16 if v0 % 2 == 0 else np.uint8))
-    fa.init_arrays(nframes)
+    if only is None:
+        fa.init_arrays(nframes)
+    else:
+        fa.init_arrays_partial(nframes, set(only))
+    has = [len(c.array) == nframes and nframes > 0 for c in fa.channels]
     for f in range(nframes):
-        for k in range(4):
-            fa.channels[4].array[f, k] = (IVALS if v0 % 2 == 0 else UVALS)[(v0 // 2 + v1 + f) % 5][k]
+        if has[4]:
+            for k in range(4):
+                fa.channels[4].array[f, k] = (IVALS if v0 % 2 == 0 else UVALS)[(v0 // 2 + v1 + f) % 5][k]
         fa.channels[0][f] = 1000.0 - 0.5 * f
-        fa.channels[1][f] = VALS[(v0 + f) % len(VALS)]
-        fa.channels[2][f] = [7, -3, 123456789][(v1 + f) % 3]
-        fa.channels[3].array[f, 0, 0] = VALS[(v1 + f) % len(VALS)]
-        fa.channels[3].array[f, 0, 1] = VALS[(v0 + 2 * f + 1) % len(VALS)]
+        if has[1]:
+            fa.channels[1][f] = VALS[(v0 + f) % len(VALS)]
+        if has[2]:
+            fa.channels[2][f] = [7, -3, 123456789][(v1 + f) % 3]
+        if has[3]:
+            fa.channels[3].array[f, 0, 0] = VALS[(v1 + f) % len(VALS)]
+            fa.channels[3].array[f, 0, 1] = VALS[(v0 + 2 * f + 1) % len(VALS)]
     return fa
 
 
@@ -43,8 +51,8 @@ def _reduce(vals, method):
 
 def write_read(nframes: int, m1: bool, m2: bool, m3: bool, bogus: bool, width: int, dec: int, red: int, v0: int, v1: int, m4: bool = False, incr: bool = False) -> bool:
     """
-    pre: 1 <= nframes <= 2 and width in (4, 5, 7, 8, 12, 16) and 1 <= dec <= 4 and 0 <= red <= 4
-    pre: 0 <= v0 <= 7 and v1 in (0, 3, 5, 6)
+    pre: 1 <= nframes <= 2 and width in (4, 5, 7, 8, 12, 16) and dec in (1, 3, 4) and 0 <= red <= 4
+    pre: 0 <= v0 <= 5 and v1 in (0, 3, 5, 6)
     pre: PART < 0 or (8 if m1 else 0) + (4 if m2 else 0) + (2 if m3 else 0) + (1 if bogus else 0) == PART
     post: _
     """
@@ -76,6 +84,11 @@ def _write_read(nframes, m1, m2, m3, bogus, width, dec, red, v0, v1, m4=False, i
     subset = {n for (n, u), m in zip(NAMES[1:], (m1, m2, m3, m4)) if m}
     if bogus:
         subset.add('NOSUCH')
+    src = fa
+    if subset and v0 % 2 == 1:
+        # the frame array was prepared for the channel subset only (init_arrays_partial, as the RP66V1 converter does): the channels that
+        # were not asked for hold no data at all
+        fa = _frame_array(nframes, v0, v1, subset)
     out = io.StringIO()
     if incr:
         # the documented incremental use: the three writers are called one after the other, each with its own copy of the requested set
@@ -115,9 +128,9 @@ def _write_read(nframes, m1, m2, m3, bogus, width, dec, red, v0, v1, m4=False, i
         return False
     half = 0.5 * 10 ** -dec
     for col, i in enumerate(want):
-        src = fa.channels[i]
+        chan = src.channels[i]
         for f in range(nframes):
-            sv = float(_reduce([float(x) for x in src.array[f].flatten()], method))
+            sv = float(_reduce([float(x) for x in chan.array[f].flatten()], method))
             got = float(np.ma.getdata(fr.channels[col].array)[f][0])
             tol = 0.5 if i in (2, 4) else half      # integer channels are printed without decimals
             if abs(got - sv) > tol * (1 + 1e-9) + abs(sv) * 1e-12:
